@@ -20,6 +20,17 @@ def build(name: str) -> Any:
         from proof_generation.proofs.small_theory import SmallTheory
 
         return SmallTheory()
+    if name == 'propositional':
+        return Propositional()
+    if name == 'small-neg':
+        # the claim spells a negation out, the proof plugs in the notation: equal modulo notation, built differently
+        from proof_generation.pattern import bot, neg, phi0, phi1
+        from proof_generation.proofs.propositional import PROPOSITIONAL_NOTATIONS
+
+        nphi = P.Implies(phi0, bot())
+        pe = ProofExp(axioms=[], notations=list(PROPOSITIONAL_NOTATIONS), claims=[P.Implies(nphi, P.Implies(phi1, nphi))])
+        pe.add_proof_expression(pe.dynamic_inst(pe.prop1(), {0: neg(phi0)}))
+        return pe
     if name == 'substitution':
         from proof_generation.proofs.substitution import Substitution
 
@@ -95,10 +106,10 @@ def build_mm(bench: str) -> Any:
     from proof_generation.metamath.translate import convert_to_implication, exec_proof
     from proof_generation.proof import ProofExp
 
-    if bench == 'two-variables':
+    if bench in ('two-variables', 'ph2-constant'):
         from proof_generation.metamath.parser import parse_database
 
-        db = parse_database(TWO_VARIABLES)
+        db = parse_database(TWO_VARIABLES if bench == 'two-variables' else PH2_CONSTANT)
     else:
         import os
 
@@ -135,6 +146,25 @@ imp-is-pattern $a #Pattern ( \imp ph0 ph1 ) $.
 proof-rule-prop-1 $a |- ( \imp ph0 ( \imp ph1 ph0 ) ) $.
 goal $p |- ( \imp ph2 ( \imp ph0 ph2 ) ) $=
   ( proof-rule-prop-1 ) BAC $.
+"""
+
+
+# the same little theory, but ph2 is a constant (a zero-ary pattern) here and a variable in TWO_VARIABLES
+PH2_CONSTANT = r"""
+$c #Pattern #Symbol $.
+$v ph0 ph1 $.
+ph0-is-pattern $f #Pattern ph0 $.
+ph1-is-pattern $f #Pattern ph1 $.
+$c |- $.
+$c \imp $.
+$c ( ) $.
+$c ph2 $.
+ph2-is-symbol $a #Symbol ph2 $.
+ph2-is-pattern $a #Pattern ph2 $.
+imp-is-pattern $a #Pattern ( \imp ph0 ph1 ) $.
+proof-rule-prop-1 $a |- ( \imp ph0 ( \imp ph1 ph0 ) ) $.
+goal $p |- ( \imp ph2 ( \imp ph0 ph2 ) ) $=
+  ( ph2-is-pattern proof-rule-prop-1 ) BAC $.
 """
 
 
@@ -181,8 +211,12 @@ def outputs(pe: Any, optimize: bool) -> list:
 def main() -> None:
     sc = json.loads(sys.argv[1])
     out = []
-    for name, opt in sc['sequence']:
-        pe = build(name)
+    built: dict = {}
+    for item in sc['sequence']:
+        name, opt = item[0], item[1]
+        # a third element 'same' serialises the module object built earlier in this sequence once more
+        pe = built[name] if len(item) > 2 and item[2] == 'same' and name in built else build(name)
+        built[name] = pe
         streams = outputs(pe, opt)
         out.append({'module': name, 'optimize': opt, 'sha': [hashlib.sha256(s).hexdigest()[:16] for s in streams], 'len': [len(s) for s in streams]})
     print(json.dumps(out))
